@@ -12,7 +12,7 @@ Mechanical rewrites (recorded in `dropped`):
 """
 import re, os, glob
 from rsx import RustSrc, AnchorLost, _mask
-from vgen import C, Gen, apply_contract, strip_attrs_and_docs
+from vgen import C, Gen, apply_contract, strip_attrs_and_docs, mirror
 import preamble
 from u_color import av_enums
 
@@ -311,8 +311,6 @@ def contracts():
         # C15: never Unspecified
         'r.matrix_coefficients != MatrixCoefficients::Unspecified && r.color_primaries != ColorPrimaries::Unspecified '
         '&& r.transfer_characteristics != TransferCharacteristic::Unspecified'])
-    t['guess_matrix_coefficients'] = C(ensures=['r == guess_matrix_spec(width as int, height as int)'], strip_const=True)
-    t['guess_color_primaries'] = C(ensures=['r == guess_primaries_spec(matrix, width as int, height as int)'])
     return t
 
 MAXVAL = r'''
@@ -398,9 +396,13 @@ def build(repo, stage='all'):
     g.dropped.append('R-mutself: `mut self` parameter of fix_unspecified_data bound to a local `this`')
     g.dropped.append('R-logwarn: 3 `log::warn!(..)` statements removed from fix_unspecified_data')
     g.add('impl YuvConfig {\n' + apply_contract(txt, ctr('fix_unspecified_data', ysrc, sp, 'src/yuv.rs'), g.dropped) + '\n}\n')
+    # R-mirror: the two guess_* helpers are transparent (generated contract r == <own body as spec>); the heuristic of the
+    # property statement (guess_matrix_spec / guess_primaries_spec) is demanded of fix_unspecified_data, their only caller
     for fn in ('guess_matrix_coefficients', 'guess_color_primaries'):
         sp = ysrc.find('fn', fn, keep_attrs=True)
-        g.add(apply_contract(ysrc.get(sp), ctr(fn, ysrc, sp, 'src/yuv.rs'), g.dropped))
+        spec_txt, exec_txt = mirror(ysrc.get(sp), fn, g.dropped)
+        g.add(spec_txt); g.add(exec_txt)
+        g.under_contract.append({'fn': fn, 'src': f'src/yuv.rs:{ysrc.line_of(sp[0])}', 'requires': [], 'ensures': [f'r == {fn}__spec(..)  (generated mirror of the body; the statement heuristic is demanded of fix_unspecified_data)']})
     # plane_in_bounds exists only after the F2 fix; if it is gone, Yuv::new cannot establish yuv_wf and fails (a violation, not a lost anchor)
     try:
         sp = ysrc.find('fn', 'plane_in_bounds', keep_attrs=True)
